@@ -1,13 +1,20 @@
 // C13 harness: named 1-D methods and nested 2-D/3-D integrals of libphysica (case grammar: checks/C13.py)
-//   named1d   <method> <p> <a> <b> <fexpr(x)>
-//       -> value direct neval digest min max      (direct = the call the method name should delegate to)
-//   nested2d  <method> <p> <x1> <x2> <y1> <y2> <fexpr(x,y)>
-//       -> value neval digest minx maxx miny maxy
-//   nested3d  <method> <p> <x1> <x2> <y1> <y2> <z1> <z2> <fexpr(x,y,z)>
-//       -> value neval digest minx maxx miny maxy minz maxz
-//   spherical <method> <p> <r1> <r2> <c1> <c2> <phi1> <phi2> <fexpr(x,y,z) of the vector components>
-//       -> value neval digest min|v| max|v| min(vz/|v|) max(vz/|v|) min(azimuth) max(azimuth)
-// neval/digest/min/max describe the arguments with which the user's function was called.
+//   named1d   <method> <p> <a> <b> <user>
+//       -> value direct neval digest min max
+//   nested2d  <method> <p> <x1> <x2> <y1> <y2> <user>
+//       -> value direct neval digest minx maxx miny maxy
+//   nested3d  <method> <p> <x1> <x2> <y1> <y2> <z1> <z2> <user>
+//       -> value direct neval digest minx maxx miny maxy minz maxz
+//   spherical <method> <p> <r1> <r2> <c1> <c2> <phi1> <phi2> <user (x,y,z = the vector components)>
+//       -> value direct neval digest min|v| max|v| min(vz/|v|) max(vz/|v|) min(azimuth) max(azimuth)
+// <user> = <fexpr(x,y,z,v 3)> [ @ <inner method> <inner p> <lo fexpr(x,y,z)> <hi fexpr(x,y,z)> <inner fexpr(x,y,z,v 3 = t)> ]
+//   without '@' the user's function is the expression; with '@' it is defined through an integral: while the library
+//   evaluates it, it calls Integrate(t -> inner(x,y,z,t), lo(x,y,z), hi(x,y,z), inner method, inner p) and hands the value to
+//   the expression as 'v 3' (the library is re-entered from inside its own integrand).
+// direct = what the call should delegate to: the back end of the method name called directly (boost quadrature,
+//   Integrate_Gauss_Legendre, Find_Epsilon + Integrate), nested by the harness itself level by level with the same
+//   method_parameter at every level, on the same user function.
+// neval/digest/min/max describe the arguments with which the user's function was called by the library.
 #include "common.hpp"
 #include "libphysica/Integration.hpp"
 #include "libphysica/Linear_Algebra.hpp"
@@ -42,6 +49,43 @@ struct Rec
 	}
 };
 
+// the user's function of a case
+struct User
+{
+	std::shared_ptr<vh::FExpr> e, lo, hi, in;
+	bool reentrant = false;
+	std::string imethod;
+	int ip = 0;
+	void parse(vh::Reader& r)
+	{
+		e = vh::parse_fexpr(r);
+		if(r.more() && r.t[r.i] == "@")
+		{
+			r.word();
+			reentrant = true;
+			imethod	  = r.word();
+			ip		  = (int) r.integer();
+			lo		  = vh::parse_fexpr(r);
+			hi		  = vh::parse_fexpr(r);
+			in		  = vh::parse_fexpr(r);
+		}
+	}
+	double operator()(double x, double y, double z) const
+	{
+		double v[4] = {x, y, z, 0.0};
+		if(reentrant)
+		{
+			const vh::FExpr* inner			  = in.get();
+			std::function<double(double)> h = [inner, x, y, z](double t) {
+				double w[4] = {x, y, z, t};
+				return vh::eval_fexpr(*inner, w);
+			};
+			v[3] = Integrate(h, vh::eval_fexpr(*lo, v), vh::eval_fexpr(*hi, v), imethod, ip);
+		}
+		return vh::eval_fexpr(*e, v);
+	}
+};
+
 static double direct_1d(const std::string& method, std::function<double(double)> f, double a, double b, int p, bool& known)
 {
 	using namespace boost::math::quadrature;
@@ -73,65 +117,85 @@ static double direct_1d(const std::string& method, std::function<double(double)>
 	return std::nan("");
 }
 
+// the nesting, done by the harness: level k integrates variable k between its own limits, innermost level calls g
+static double direct_nd(const std::string& method, const std::function<double(const double*)>& g, int d, const double* lim, int p, double* pt, int level, bool& known)
+{
+	std::function<double(double)> fk = [&, level](double t) {
+		pt[level] = t;
+		if(level == d - 1)
+			return g(pt);
+		return direct_nd(method, g, d, lim, p, pt, level + 1, known);
+	};
+	return direct_1d(method, fk, lim[2 * level], lim[2 * level + 1], p, known);
+}
+
 static void handler(vh::Reader& r, vh::Out& o)
 {
 	std::string op	   = r.word();
 	std::string method = r.word();
 	int p			   = (int) r.integer();
 	Rec rec;
+	User u;
+	bool known = true;
+	double pt[3] = {0, 0, 0};
 	if(op == "named1d")
 	{
-		double a = r.num(), b = r.num();
-		auto e = vh::parse_fexpr(r);
+		double lim[2] = {r.num(), r.num()};
+		u.parse(r);
 		std::function<double(double)> f = [&](double x) {
 			rec.n++;
 			rec.digest += x;
 			rec.see(0, x);
-			double v[3] = {x, 0, 0};
-			return vh::eval_fexpr(*e, v);
+			return u(x, 0, 0);
 		};
-		double val = Integrate(f, a, b, method, p);
-		bool known;
-		double dir = direct_1d(method, vh::fun1(e), a, b, p, known);
+		double val = Integrate(f, lim[0], lim[1], method, p);
+		std::function<double(const double*)> g = [&](const double* q) { return u(q[0], 0, 0); };
+		double dir = direct_nd(method, g, 1, lim, p, pt, 0, known);
 		o.f(val);
 		o.f(dir);
 		rec.put(o, 1);
 	}
 	else if(op == "nested2d")
 	{
-		double x1 = r.num(), x2 = r.num(), y1 = r.num(), y2 = r.num();
-		auto e = vh::parse_fexpr(r);
+		double lim[4] = {r.num(), r.num(), r.num(), r.num()};
+		u.parse(r);
 		std::function<double(double, double)> f = [&](double x, double y) {
 			rec.n++;
 			rec.digest += x + 2.0 * y;
 			rec.see(0, x);
 			rec.see(1, y);
-			double v[3] = {x, y, 0};
-			return vh::eval_fexpr(*e, v);
+			return u(x, y, 0);
 		};
-		o.f(Integrate_2D(f, x1, x2, y1, y2, method, p));
+		double val = Integrate_2D(f, lim[0], lim[1], lim[2], lim[3], method, p);
+		std::function<double(const double*)> g = [&](const double* q) { return u(q[0], q[1], 0); };
+		double dir = direct_nd(method, g, 2, lim, p, pt, 0, known);
+		o.f(val);
+		o.f(dir);
 		rec.put(o, 2);
 	}
 	else if(op == "nested3d")
 	{
-		double x1 = r.num(), x2 = r.num(), y1 = r.num(), y2 = r.num(), z1 = r.num(), z2 = r.num();
-		auto e = vh::parse_fexpr(r);
+		double lim[6] = {r.num(), r.num(), r.num(), r.num(), r.num(), r.num()};
+		u.parse(r);
 		std::function<double(double, double, double)> f = [&](double x, double y, double z) {
 			rec.n++;
 			rec.digest += x + 2.0 * y + 3.0 * z;
 			rec.see(0, x);
 			rec.see(1, y);
 			rec.see(2, z);
-			double v[3] = {x, y, z};
-			return vh::eval_fexpr(*e, v);
+			return u(x, y, z);
 		};
-		o.f(Integrate_3D(f, x1, x2, y1, y2, z1, z2, method, p));
+		double val = Integrate_3D(f, lim[0], lim[1], lim[2], lim[3], lim[4], lim[5], method, p);
+		std::function<double(const double*)> g = [&](const double* q) { return u(q[0], q[1], q[2]); };
+		double dir = direct_nd(method, g, 3, lim, p, pt, 0, known);
+		o.f(val);
+		o.f(dir);
 		rec.put(o, 3);
 	}
 	else if(op == "spherical")
 	{
-		double r1 = r.num(), r2 = r.num(), c1 = r.num(), c2 = r.num(), f1 = r.num(), f2 = r.num();
-		auto e = vh::parse_fexpr(r);
+		double lim[6] = {r.num(), r.num(), r.num(), r.num(), r.num(), r.num()};
+		u.parse(r);
 		std::function<double(Vector)> f = [&](Vector w) {
 			double x = w[0], y = w[1], z = w[2];
 			rec.n++;
@@ -144,10 +208,17 @@ static void handler(vh::Reader& r, vh::Out& o)
 			rec.see(1, z / nrm);
 			if(x != 0.0 || y != 0.0)
 				rec.see(2, az);
-			double v[3] = {x, y, z};
-			return vh::eval_fexpr(*e, v);
+			return u(x, y, z);
 		};
-		o.f(Integrate_3D(f, r1, r2, c1, c2, f1, f2, method, p));
+		double val = Integrate_3D(f, lim[0], lim[1], lim[2], lim[3], lim[4], lim[5], method, p);
+		// shell integral written out: r^2 f(r sin(th) cos(phi), r sin(th) sin(phi), r cos(th)), th = acos(cos_theta)
+		std::function<double(const double*)> g = [&](const double* q) {
+			double rr = q[0], th = std::acos(q[1]), ph = q[2];
+			return rr * rr * u(rr * std::sin(th) * std::cos(ph), rr * std::sin(th) * std::sin(ph), rr * std::cos(th));
+		};
+		double dir = direct_nd(method, g, 3, lim, p, pt, 0, known);
+		o.f(val);
+		o.f(dir);
 		rec.put(o, 3);
 	}
 	else
